@@ -1,4 +1,5 @@
 """C07 - parsing and checking any text ends with a program or a located error (C07.R1-R3)."""
+import re
 from .. import mir, pcnull
 from ..core import CheckError
 from . import common, panics
@@ -17,7 +18,7 @@ EXPLANATION = (
     "StringView::position indexes its table only behind the !is_eof() guard and the end-of-text "
     "position behind a non-empty guard; the program parser ends in demand_eof; (R4) the lexer's "
     "character classes for &O / &H literals are subsets of the domains of the digit converters that "
-    "panic outside them (both tabulated over ASCII). (R2) every instantiation of the repetition combinators (ManyParser, ManyCtxParser, DelimitedParser) is enumerated from the types of MIR locals; its element (delimiter) is not optional by its combinator type, otherwise the repetition never sees a soft failure and loops forever. Audited (J2) panic sites whose invariant is of the form `the parser demands X` carry a re-checked witness: the named parser constructor builds no parser that is optional by its combinator type.")
+    "panic outside them (both tabulated over ASCII). (R2) every instantiation of the repetition combinators (ManyParser, ManyCtxParser, DelimitedParser) is enumerated from the types of MIR locals; its element (delimiter) is not optional by its combinator type, otherwise the repetition never sees a soft failure and loops forever. Audited (J2) panic sites whose invariant is of the form `the parser demands X` carry a re-checked witness: the named parser constructor builds no parser that is optional by its combinator type.  (R6) inside a family of mutually recursive tree rewrites no member hands the result of one recursive call to a member that looks inside it again (2^depth).")
 NOT_DECIDED = [
     "absence of arithmetic-overflow panics (debug profile only) and of stack overflow on deep nesting",
     "termination of repetitions whose element is optional for a reason the type does not show (a boxed choice with an optional alternative, a repetition that allows none inside a repetition, recursion through a lazy parser)",
@@ -247,6 +248,179 @@ def r5_no_double_descent(ctx, rule="C07.R5"):
     ctx.require(rule, 60)
 
 
+def _recursive_families(prog, crates):
+    """Strongly connected components of the call graph among the functions of `crates` (closures
+    counted with their enclosing function) that contain a cycle: {owner id: frozenset(component)}."""
+    import sys
+
+    def owner(f):
+        return prog.enclosing_fn(f) or f
+    nodes = {f.id: f for f in prog.fns.values() if f.crate in crates and f.kind != "const"}
+    edges = {}
+    for f in nodes.values():
+        o = owner(f).id
+        for _b, t in f.body.calls():
+            c = t.get("res") or mir.callee_of(t)
+            if c in nodes:
+                edges.setdefault(o, set()).add(owner(nodes[c]).id)
+    index, low, st, on, out = {}, {}, [], set(), {}
+    cnt = [0]
+    old = sys.getrecursionlimit()
+    sys.setrecursionlimit(20000)
+
+    def sc(v):
+        index[v] = low[v] = cnt[0]
+        cnt[0] += 1
+        st.append(v)
+        on.add(v)
+        for w in edges.get(v, ()):
+            if w not in index:
+                sc(w)
+                low[v] = min(low[v], low[w])
+            elif w in on:
+                low[v] = min(low[v], index[w])
+        if low[v] == index[v]:
+            comp = []
+            while True:
+                w = st.pop()
+                on.discard(w)
+                comp.append(w)
+                if w == v:
+                    break
+            if len(comp) > 1 or comp[0] in edges.get(comp[0], ()):
+                fs = frozenset(comp)
+                for w in comp:
+                    out[w] = fs
+    try:
+        for v in list(edges):
+            if v not in index:
+                sc(v)
+    finally:
+        sys.setrecursionlimit(old)
+    return out
+
+
+PASS_THROUGH_STD = ("Box::<T>::new", "boxed::Box::<T>::new", "Into::into", "From::from", "Clone::clone",
+                    "Deref::deref", "DerefMut::deref_mut", "AsRef::as_ref", "Borrow::borrow")
+
+
+def _same_value(body, seeds):
+    """locals holding the seed values, a part of them, or a box / reference of them - not an aggregate
+    built around them"""
+    vs = set(seeds)
+    changed = True
+    while changed:
+        changed = False
+        for blk in body.blocks:
+            for stt in blk["s"]:
+                if stt["k"] != "assign" or stt["p"][0] in vs:
+                    continue
+                r = stt["r"]
+                src = None
+                if r["k"] in ("use", "cast") and isinstance(r.get("o"), dict):
+                    pl = mir.op_place(r["o"])
+                    src = pl[0] if pl is not None else None
+                elif r["k"] in ("ref", "addr") and "p" in r:
+                    src = r["p"][0]
+                if src in vs:
+                    vs.add(stt["p"][0])
+                    changed = True
+            t = blk["t"]
+            if t["k"] == "call" and t["d"][0] not in vs and (t.get("cpath") or "").endswith(PASS_THROUGH_STD):
+                args = {mir.op_place(a)[0] for a in t["args"] if mir.op_place(a) is not None}
+                if args & vs:
+                    vs.add(t["d"][0])
+                    changed = True
+    return vs
+
+
+def _inspects(prog, g, i, memo, depth=0):
+    """Does g look inside its parameter i (0-based): take the discriminant of it or of a part of
+    it, hand it to a closure, or pass it on to a workspace function that does."""
+    key = (g.id, i)
+    if key in memo:
+        return memo[key]
+    memo[key] = False
+    if i + 1 > g.argc or depth > 6:
+        return False
+    body = g.body
+    vs = _same_value(body, {i + 1})
+    res = False
+    for blk in body.blocks:
+        for stt in blk["s"]:
+            if stt["k"] == "assign" and stt["r"]["k"] == "discr" and stt["r"]["p"][0] in vs:
+                res = True
+    if not res:
+        for _b, t in body.calls():
+            pos = [j for j, a in enumerate(t["args"]) if mir.op_place(a) is not None and mir.op_place(a)[0] in vs]
+            if not pos:
+                continue
+            cp = t.get("cpath") or ""
+            if re.match(r"^std::ops::Fn(Once|Mut)?::call", cp):
+                res = True
+                break
+            h = prog.fns.get(t.get("res") or mir.callee_of(t))
+            if h is not None and any(_inspects(prog, h, j, memo, depth + 1) for j in pos):
+                res = True
+                break
+    memo[key] = res
+    return res
+
+
+def r6_no_composed_recursion(ctx, rule="C07.R6"):
+    """`bounded time`: the tree rewrites of the parser and the checker are families of mutually
+    recursive functions.  Inside such a family, handing the *result* of one recursive call to another
+    member of the family that looks inside it walks the same subtree twice at that level - and, since
+    the second walk does the same one level down, 2^depth times in all (forty unary minus signs
+    before a variable: no answer).  For every function of a recursive family: no argument that a
+    family member inspects (matches on, or passes to something that does) is the result of an
+    earlier call into the family on the same path.  (Wrapping a result into a new node without
+    looking at it - the rotation of binary operators - is not a second walk.)"""
+    prog = ctx.prog
+    fam = _recursive_families(prog, ("rusty_parser", "rusty_linter"))
+    if len(set(fam.values())) < 10:
+        raise CheckError("%s: only %d recursive families found" % (rule, len(set(fam.values()))))
+    memo = {}
+    n = 0
+    pairs = 0
+    for oid in sorted(fam):
+        o = prog.fns[oid]
+        members = fam[oid]
+        worst = None
+        for f in [o] + prog.closures_of(o):
+            body = f.body
+            calls = []
+            for b, t in body.calls():
+                cf = prog.fns.get(t.get("res") or mir.callee_of(t))
+                if cf is not None and (prog.enclosing_fn(cf) or cf).id in members:
+                    calls.append((b, t, cf))
+            if len(calls) < 2:
+                continue
+            for b1, t1, _c1 in calls:
+                vs = _same_value(body, {t1["d"][0]})
+                reach = body.reachable(b1)
+                for b2, t2, c2 in calls:
+                    if b2 == b1 or b2 not in reach:
+                        continue
+                    for j, a in enumerate(t2["args"]):
+                        pl = mir.op_place(a)
+                        if pl is not None and pl[0] in vs:
+                            pairs += 1
+                            if _inspects(prog, c2, j, memo):
+                                worst = (t1, t2)
+        n += 1
+        name = o.path.split("::", 1)[1]
+        ctx.decide(worst is None, rule, "%s:%s" % (rule, name), o.loc,
+                   "no result of a recursive call is inspected by the family again",
+                   "%s hands the result of %s (line %s) to %s (line %s), which looks inside it; both are members of "
+                   "one recursive family: the subtree is walked twice at every level of nesting, 2^depth in all - a "
+                   "chain of forty unary operators or parentheses no longer ends in bounded time"
+                   % (name, (worst[0].get("cpath") or "?").split("::")[-1] if worst else "", worst[0].get("ln") if worst else "",
+                      (worst[1].get("cpath") or "?").split("::")[-1] if worst else "", worst[1].get("ln") if worst else ""))
+    ctx.analysed_units(rule, recursive_functions=n, families=len(set(fam.values())), result_to_family_pairs=pairs)
+    ctx.require(rule, 20)
+
+
 def run(ctx):
     common.install(ctx)
     panics.r_audit(ctx, "C07.R1", scope="frontend")
@@ -254,3 +428,4 @@ def run(ctx):
     r3_error_position(ctx)
     r4_token_classes_within_converter_domains(ctx)
     r5_no_double_descent(ctx)
+    r6_no_composed_recursion(ctx)
